@@ -26,8 +26,16 @@ N1 == MkTree(<<C(<<2, 5>>), C(<<3, 4>>), Once(1), Once(1), Once(1)>>)
 N2 == MkTree(<<C(<<2, 3>>), Once(1), C(<<4, 5>>), Unl(1), Once(1)>>)
 N3 == MkTree(<<C(<<2, 5>>), C(<<3, 4>>), Once(1), ConstP(1, 1), C(<<6, 7>>), Once(0), Once(1)>>)
 
-FlatTrees   == {F1, F2, F3, F4, F5, F6, F7}
-NestedTrees == {N1, N2, N3}
+F8 == MkTree(<<C(<<2, 3, 4>>), Once(0), Unl(1), Once(1)>>)            \* empty first part, then unknown: Left() before start
+\* a nested composite that begins with an empty part followed by an unknown part (NewComposite's Left() probe)
+N4 == MkTree(<<C(<<2, 3>>), Once(1), C(<<4, 5>>), Once(0), Unl(1)>>)
+N5 == MkTree(<<C(<<2, 5>>), C(<<3, 4>>), Once(0), Unl(1), Once(1)>>)  \* ... as the FIRST part (on the explicit-start chain)
+N6 == MkTree(<<C(<<2, 3>>), Once(1), C(<<4, 7>>), C(<<5, 6>>), Once(0), Unl(1), Once(1)>>)  \* two levels deep
+
+FlatTrees   == {F1, F2, F3, F4, F5, F6, F7, F8}
+NestedTrees == {N1, N2, N3, N4, N5, N6}
+ProbeTrees  == {N4, N5, N6}
+QuickTrees  == {F1, F2, F6, F8}
 AllTrees    == FlatTrees \cup NestedTrees
 OneTree     == {F1}
 SmallTrees  == {F1, F3, F7}
